@@ -242,9 +242,64 @@ def nontrivial(case):
                                 for t in case['request']['traits'])
 
 
+def _respell(s, t):
+    """the same three quantities in the plainest spelling: cpu without '%', sizes in bytes without a unit"""
+    ns, nt = {}, {}
+    for k in ('cpu', 'disk', 'memory'):
+        n = denote(t[k])
+        ns[k], nt[k] = str(n), (n, ('none',))
+    return ns, nt
+
+
+def variants(case):
+    """Metamorphic variants of a well-formed case (Props/C19.v: C19_order_irrelevant, C19_spelling_irrelevant,
+    C19_replaced_ignored): the reservations listed in another order; every quantity re-spelled; the reservation being
+    replaced holding something else.  All random choices come from the case itself, so a replay sees the same variants."""
+    import copy
+    import zlib
+    rng = random.Random(zlib.crc32(json.dumps(case, sort_keys=True).encode()))
+    out = {}
+    v = copy.deepcopy(case)
+    rng.shuffle(v['allocs'])
+    out['order'] = v
+    v = copy.deepcopy(case)
+    for o in [v['partition'], v['request']] + v['partition']['limits'] + v['allocs']:
+        o['s'], o['t'] = _respell(o['s'], o['t'])
+    out['spelling'] = v
+    mine = [i for i, a in enumerate(case['allocs']) if a['id'] == case['old']]
+    if mine:
+        v = copy.deepcopy(case)
+        a = v['allocs'][mine[0]]
+        a['s'], a['t'] = gen_res(rng, 10 ** 6, 10 ** 5)
+        a['traits'] = rng.sample(TRAITS, rng.randint(0, 3))
+        out['replaced'] = v
+    return out
+
+
 def _impl(case):
     o, msg = impl_run(case)
-    return {'outcome': o, 'message': msg}
+    res = {'outcome': o, 'message': msg}
+    if case_wf(case):
+        res['variants'] = {k: impl_run(v)[0] for k, v in variants(case).items()}
+    return res
+
+
+META_SIG = {'order': 'decision-depends-on-listing-order', 'spelling': 'decision-depends-on-unit-spelling',
+            'replaced': 'replaced-reservation-counted-against-its-replacement'}
+
+
+def oracle_full(case, obs):
+    r = oracle(case, obs['outcome'], obs['message'])
+    if r is not None:
+        return r
+    for k, vo in sorted((obs.get('variants') or {}).items()):
+        if vo != obs['outcome']:
+            return (META_SIG[k], 'the same request is decided %s, but %s once %s' % (
+                ['accept', 'reject', 'service failure'][obs['outcome']], ['accept', 'reject', 'service failure'][vo],
+                {'order': 'the other reservations are listed in another order',
+                 'spelling': 'every quantity is re-spelled without units',
+                 'replaced': 'the reservation being replaced holds something else'}[k]))
+    return None
 
 
 def _extra(_r, cases, obs):
@@ -263,7 +318,7 @@ def run(tier, seed):
         'impl_run': _impl,
         'expected': lambda c, o: [o['outcome']],
         'case_term': lambda c, o: case_term(c),
-        'oracle': lambda c, o: oracle(c, o['outcome'], o['message']),
+        'oracle': lambda c, o: oracle_full(c, o),
         'nontrivial': lambda c, o: nontrivial(c),
         'n_quick': 600, 'n_thorough': 20000, 'search_quick': 5000, 'search_thorough': 100000,
         'corpus': 'c19.json',
@@ -289,5 +344,4 @@ ASSUMPTIONS = [
 
 
 def replay_case(case):
-    o, msg = impl_run(case)
-    return oracle(case, o, msg)
+    return oracle_full(case, _impl(case))
